@@ -47,6 +47,10 @@ WORKSPACES = {
     # edited file that sorts before it: A edits both files and renames the directory; S (one -> three) shifts A's match
     # in the in-directory file without touching the top-level one
     "W5": {"a.txt": "foo_bar top\n", "foo_bar_dir/inner.txt": "one foo_bar x\n", "z.txt": "alpha z\n"},
+    # a file with the term TWICE and another word between the two, next to a file that sorts before it: after A is undone,
+    # S (one -> three) shifts A's SECOND match in m.txt and leaves the first where it was — a stored plan whose first hunk
+    # of the file still fits and whose second does not (seed C04i: the redo pre-validation remembers one verdict per file)
+    "W6": {"a.txt": "foo_bar top\n", "m.txt": "foo_bar one foo_bar\n", "z.txt": "one z\n"},
 }
 ALPHABET = ["A", "A'", "B", "ul", "u0", "u1", "rl", "r0"]
 ALPHABET_W5 = ["A", "S", "ul", "u0", "u1", "rl", "r0"]
@@ -717,6 +721,18 @@ def run(ctx):
         return
     ctx.sample({"workspace": "W1", "sequence": seq_str(cres[0].seq), "steps": cres[0].classes})
 
+    # ---- stale LATER match (workspace W6): the operation is undone, another rename shifts the second of two matches in one
+    #      file, then the redo (by id, by `latest`, twice, after undoing the other rename again) ---------------------------
+    stale = [[("A", 0), ("ul", 1), ("S", 1), ("rl", 1)], [("A", 0), ("u0", 1), ("S", 1), ("r0", 1)],
+             [("A", 0), ("u0", 1), ("S", 1), ("r0", 1), ("r0", 1)], [("A", 0), ("u0", 1), ("S", 1), ("r0", 1), ("ul", 1), ("r0", 1)],
+             [("S", 0), ("ul", 1), ("A", 1), ("rl", 1)], [("S", 0), ("u0", 1), ("A", 1), ("r0", 1), ("ul", 1)],
+             [("A", 0), ("S", 1), ("u0", 1), ("ul", 1), ("r0", 1), ("rl", 1)], [("A", 0), ("S", 1), ("u1", 1), ("u0", 1), ("r1", 1), ("r0", 1)]]
+    sres = run_parallel([(lambda d, seq=seq: run_sequence(d, "W6", seq)) for seq in stale])
+    ctx.count("stale-later-match:sequences", len(sres))
+    if judge(ctx, sres):
+        return
+    ctx.sample({"workspace": "W6", "sequence": seq_str(sres[0].seq), "steps": sres[0].classes})
+
     # ---- random, longer ------------------------------------------------------------------------------
     n_rand = 400 if ctx.thorough else 40
     rseqs = []
@@ -730,6 +746,7 @@ def run(ctx):
         rseqs.append((ws, seq))
     for _ in range(n_rand // 4):
         rseqs.append(("W5", [(rng.choice(ALPHABET_W5), 1 if rng.random() < 0.8 else 0) for _ in range(rng.randint(4, 10))]))
+        rseqs.append(("W6", [(rng.choice(ALPHABET_W5), 1 if rng.random() < 0.8 else 0) for _ in range(rng.randint(4, 9))]))
     rres = run_parallel([(lambda d, ws=ws, seq=seq: run_sequence(d, ws, seq)) for ws, seq in rseqs])
     for r in rres:
         ctx.count("random:executed_steps", len(r.pieces))
